@@ -46,7 +46,7 @@ def selftest_ceremony(work):
     """One straight-line register + authenticate behaviour: accepted as recorded, rejected when a recorded field is
     corrupted (layer A) and flagged as drift when an event is removed (layer B)."""
     beh = {"cfg": {"uvCap": "configured", "upCap": True, "counterOn": True, "idLen": 16, "hmac": "off", "mc": False,
-                   "storeKind": "reference", "disc": "full", "emptyAsErr": False, "wrap": "none", "tr": "default"},
+                   "storeKind": "reference", "disc": "full", "emptyAsErr": False, "wrap": "none", "tr": "default", "order": "oldest"},
            "store": [],
            "cers": [{"api": "ctap2", "op": op, "req": {"rp": "r1", "user": "u1", "algs": ["ES256"], "exclude": [], "excludeGiven": False,
                                                      "allow": [], "allowGiven": False, "rk": op == "mc", "up": True, "uv": True, "pinAuth": False,
